@@ -259,4 +259,56 @@ theorem execRows_frame (db : Db) (cols : List Col) : ∀ (pairs : List (List Val
               rw [List.getElem?_set_ne hp]; exact h1
             exact execRows_frame db cols rest _ p c hfr' r r' hmid h2
 
+/-! ### `update` -/
+
+/-- the rowIDs `update` addresses: what `get('rowID', …)` answers -/
+def updIds (db : Db) (tn : Py.Str) (kw : List Kw) : Except Err (List Int) := Model.get db rowIDName tn kw >>= asInts
+
+/-- shapes agree: some value rows, each with one value per attribute, as many rows as atoms selected -/
+def ShapesOK (db : Db) (columns : Py.Str) (values : List (List Val)) (tn : Py.Str) (kw : List Kw) : Prop :=
+  values ≠ [] ∧ (∀ r ∈ values, r.length = (updNames columns).length) ∧
+    ∀ ids, updIds db tn kw = .ok ids → ids.length = values.length
+
+/-- **a shape mismatch raises before anything is modified** (the body of `update` for one model) -/
+theorem updateCore_shape_error (db : Db) (columns : Py.Str) (values : List (List Val)) (tn : Py.Str) (kw : List Kw)
+    (h : ¬ ShapesOK db columns values tn kw) :
+    (updateCore db columns values tn kw).1 = db ∧ ∃ e, (updateCore db columns values tn kw).2 = .error e := by
+  unfold updateCore
+  cases values with
+  | nil => exact ⟨rfl, _, rfl⟩
+  | cons v0 vs =>
+    simp only
+    split_ifs with h1
+    · exact ⟨rfl, _, rfl⟩
+    · cases hget : (Model.get db rowIDName tn kw >>= asInts) with
+      | error e => exact ⟨rfl, _, rfl⟩
+      | ok rowID =>
+        simp only
+        split_ifs with h2
+        · exact ⟨rfl, _, rfl⟩
+        · exfalso; apply h
+          refine ⟨by simp, ?_, ?_⟩
+          · intro r hr
+            simp only [List.any_eq_true, not_exists, not_and, decide_eq_true_eq, ne_eq, not_not] at h1
+            exact h1 r hr
+          · intro ids hids
+            unfold updIds at hids
+            rw [hget] at hids; injection hids with hids; subst hids
+            simpa using h2
+
+/-- when the shapes agree `update` is the UPDATE loop over the selected rowIDs -/
+theorem updateCore_ok (db : Db) (columns : Py.Str) (values : List (List Val)) (tn : Py.Str) (kw : List Kw)
+    (ids : List Int) (hids : updIds db tn kw = .ok ids) (hs : ShapesOK db columns values tn kw)
+    (cs : List Col) (hcs : (updNames columns).mapM (sqlCol db) = some cs) :
+    updateCore db columns values tn kw = execMany db tn cs (values.zip (ids.map (· + 1))) := by
+  obtain ⟨h0, h1, h2⟩ := hs
+  unfold updateCore
+  cases values with
+  | nil => exact absurd rfl h0
+  | cons v0 vs =>
+    have hany : (v0 :: vs).any (fun val => decide (val.length ≠ (updNames columns).length)) = false := by
+      rw [List.any_eq_false]; intro r hr; simp [h1 r hr]
+    unfold updIds at hids
+    simp only [hany, Bool.false_eq_true, if_false, hids, h2 ids (by unfold updIds; exact hids), ne_eq, not_true_eq_false, hcs]
+
 end TableProofs
